@@ -70,7 +70,9 @@ Step(op, a, r) == [op |-> op, a |-> a, r |-> r,
                    first |-> first', latest |-> latest', ver |-> version', fast |-> fast', iv |-> iv,
                    tgt |-> TargetOf(version', iv),
                    work |-> work']
-Log(op, a, r) == hist' = IF Record THEN Append(hist, Step(op, a, r)) ELSE hist
+\* HistBase is overridden (cfg: HistBase <- ...) by the trace specification, which only needs the last record
+HistBase == hist
+Log(op, a, r) == hist' = IF Record THEN Append(HistBase, Step(op, a, r)) ELSE hist
 
 WLog(x) == wlog' = IF Record THEN Append(wlog, x) ELSE wlog
 WClear  == wlog' = <<>>
@@ -217,6 +219,8 @@ DeleteVersionsTo(n) ==
      /\ Log("delto", [n |-> n], [err |-> FALSE])
 \* contract (doc.go): the version a live handle has loaded is not deleted under it
 DelOk(n) == n < version \/ n >= latest
+\* the requests that really delete something (generator class "deltook")
+DelEff == {n \in first..(latest - 1) : DelOk(n) /\ ~(\E p \in pins : p >= first /\ p <= n)}
 
 \* open / close an Exporter on a retained version (at most one per version here)
 ExportOpen(t) ==
@@ -291,6 +295,7 @@ NextSim ==
       [] c = "load"     -> \E t \in 0..(latest + 1) : LoadVersion(t)
       [] c = "lvfo"     -> \E t \in 1..(latest + 1) : LoadVersionForOverwriting(t)
       [] c = "delto"    -> \E n \in 0..(latest + 1) : DelOk(n) /\ DeleteVersionsTo(n)
+      [] c = "deltook"  -> IF latest = 0 \/ DelEff = {} THEN SaveVersion ELSE \E n \in DelEff : DeleteVersionsTo(n)
       [] c = "import"   -> IF latest = 0 THEN SaveVersion ELSE \E t \in Retained, f \in BOOLEAN : ImportSwitch(t, f)
       [] c = "savecs"   -> \E cs \in CSCands : SaveChangeSet(cs)
       [] c = "expopen"  -> IF Retained \ pins = {} THEN Rollback ELSE \E t \in Retained \ pins : ExportOpen(t)
